@@ -167,3 +167,57 @@ End GSx.
 (* candidate space -> sample space: utilities[:, mapping] = utilities_cand; query_indices = mapping[...] *)
 Definition remap (n : nat) (mapping : list nat) (t : list step) : list step :=
   map (fun s => (nth (fst s) mapping O, scatter mapping (snd s) (repeat None n))) t.
+
+(* ------------------------------------------------------------------ TypiClust *)
+(* skactiveml/pool/_typi_clust.py, the batch loop AS WRITTEN (recorded findings: duplicates,
+   UnboundLocalError): clusters are chosen by rand_argmax over their sizes (covered clusters have
+   size 0); the sample is chosen by rand_argmax over typicality[mapping], which is NOT masked by the
+   earlier picks; `cluster_sizes[cluster_id] = 0` fails when no cluster was ever chosen.
+   Random numbers are consumed from one flat stream (numerators of random_state.random()). *)
+Section TypiClust.
+  Variable n : nat.
+  Variable mapping : list nat.
+  Variable clabel : list nat.                (* cluster label of every sample *)
+  Variable typ : nat -> nat -> Z.            (* order key of the typicality of sample j inside cluster c *)
+  Variable one_key neg_key : Z.              (* keys of 1.0 (all clusters covered) and of -inf (outside the cluster) *)
+
+  Definition tc_typicality (cid : option nat) (j : nat) : val :=
+    match cid with
+    | None => Some one_key
+    | Some c => if Nat.eqb (nth j clabel O) c then Some (typ c j) else Some neg_key
+    end.
+
+  Fixpoint set_zero (l : list Z) (i : nat) : list Z :=
+    match l, i with
+    | [], _ => []
+    | _ :: t, O => 0 :: t
+    | x :: t, S j => x :: set_zero t j
+    end.
+
+  Fixpoint tc_loop (k : nat) (sizes : list Z) (prev : list nat) (last : option nat) (stream : list Z)
+    : option (list step) :=
+    match k with
+    | O => Some []
+    | S k' =>
+        let allz := forallb (Z.eqb 0) sizes in
+        let '(cid, stream1) :=
+            if allz then (None, stream)
+            else (Some (rand_argmax (map Some sizes) (firstn (length sizes) stream)), skipn (length sizes) stream) in
+        let tvec := map (tc_typicality cid) mapping in
+        let i := rand_argmax tvec (firstn (length mapping) stream1) in
+        let p := nth i mapping O in
+        let row := mask_all (scatter mapping tvec (repeat None n)) prev in
+        let last' := match cid with Some c => Some c | None => last end in
+        match last' with
+        | None => None                                   (* cluster_id is unbound: UnboundLocalError *)
+        | Some c =>
+            match tc_loop k' (set_zero sizes c) (prev ++ [p]) last' (skipn (length mapping) stream1) with
+            | None => None
+            | Some rest => Some ((p, row) :: rest)
+            end
+        end
+    end.
+
+  Definition typiclust (k : nat) (sizes : list Z) (stream : list Z) : option (list step) :=
+    tc_loop k sizes [] None stream.
+End TypiClust.
